@@ -288,6 +288,9 @@ def _linkkind(ck: Checker) -> None:
     from . import round5 as _r5
 
     _r5.hardlink_excludes_symlink(ck, "C10.linkkind", f_sym, f_hard)
+    from . import round7 as _r7
+
+    _r7.state_hit_full_meta(ck, "C10.linkkind")
     # ... and that metadata is the one stat'ed from the workspace file (change.old), not the target entry's
     n_call = 0
     for caller in fn.module.funcs.values():
